@@ -61,6 +61,17 @@ def run(v):
     rs = common.tlc(os.path.join(SPEC, "mc", "MC_LspServer.tla"), os.path.join(SPEC, "mc", "MC_LspServer_strict.cfg"),
                     "c09_mc_strict", workers=4, timeout=900, coverage=False)
     v.cov["design_level_counterexample_without_named_deviation"] = bool(rs.violated)
+    # the repaired refresh path is part of the model: with RefreshFromMemory = FALSE (re-read from disk,
+    # the code before the repair) a purely sequential history already violates the invariant
+    rd = common.tlc(os.path.join(SPEC, "mc", "MC_LspServer.tla"), os.path.join(SPEC, "mc", "MC_LspServer_diskrefresh.cfg"),
+                    "c09_mc_disk", workers=4, timeout=900, coverage=False)
+    v.cov["design_level_counterexample_with_disk_refresh"] = bool(rd.violated)
+    # liveness: the server always comes to rest (weak fairness of handler steps, no state constraint)
+    rl = common.tlc(os.path.join(SPEC, "mc", "MC_LspServer.tla"), os.path.join(SPEC, "mc", "MC_LspServer_live.cfg"),
+                    "c09_mc_live", workers=8, timeout=1800, coverage=False)
+    if rl.violated or not rl.ok:
+        v.failure({"kind": "model", "invariant": "ComesToRest"}, {"tlc_output": rl.output[-3000:]})
+    v.add_mc("MC_LspServer/live", rl, "temporal property ComesToRest under WF of handler steps")
     trace = os.path.join(wd, "trace.ndjson")
     rc, out, err = common.run_hv(["c09", "--out", trace, "--seed", v.seed, "--batches", 400 if thorough else 100,
                                   "--random-batches", 600 if thorough else 40], timeout=7200)
